@@ -291,21 +291,45 @@ func ruleENCTEXT(c *Ctx) []Obligation {
 			}
 			ord++
 			o := Obligation{Key: fmt.Sprintf("%s reads the text of ast.%s #%d", funcKey(fn), n.Obj().Name(), ord), Pos: c.pos(call.Pos()), Verdict: OK}
-			par := pm[call]
-			argOfUnquote := false
-			if pc, ok := par.(*ast.CallExpr); ok {
-				if f := calleeOf(info, pc); f != nil && (f.Name() == "unquote" || f.Name() == "Unquote") {
-					argOfUnquote = true
-				}
-			}
-			inDiagnostic := false
-			for x := ast.Node(call); x != nil; x = pm[x] {
-				if pc, ok := x.(*ast.CallExpr); ok {
-					if f := calleeOf(info, pc); f != nil && f.Pkg() != nil && (f.Pkg().Path() == "fmt" || strings.HasSuffix(f.Pkg().Path(), "/errors")) {
-						inDiagnostic = true
+			classify := func(use ast.Node) (argOfUnquote, inDiagnostic bool) {
+				if pc, ok := pm[use].(*ast.CallExpr); ok {
+					if f := calleeOf(info, pc); f != nil && (f.Name() == "unquote" || f.Name() == "Unquote") {
+						argOfUnquote = true
 					}
-					if id, ok := pc.Fun.(*ast.Ident); ok && id.Name == "panic" {
-						inDiagnostic = true
+				}
+				for x := use; x != nil; x = pm[x] {
+					if pc, ok := x.(*ast.CallExpr); ok {
+						if f := calleeOf(info, pc); f != nil && f.Pkg() != nil && (f.Pkg().Path() == "fmt" || strings.HasSuffix(f.Pkg().Path(), "/errors")) {
+							inDiagnostic = true
+						}
+						if id, ok := pc.Fun.(*ast.Ident); ok && id.Name == "panic" {
+							inDiagnostic = true
+						}
+					}
+				}
+				return
+			}
+			argOfUnquote, inDiagnostic := classify(call)
+			// the text held in a local (text := tok.Text()): judged by the uses of the local — all
+			// of them decode it or report it, and at least one decodes it
+			if as, ok := pm[call].(*ast.AssignStmt); ok && len(as.Lhs) == 1 && len(as.Rhs) == 1 {
+				if id, ok := as.Lhs[0].(*ast.Ident); ok && id.Name != "_" {
+					obj := info.ObjectOf(id)
+					uses, unq, diag := 0, 0, 0
+					ast.Inspect(fd.Body, func(m ast.Node) bool {
+						if u, ok := m.(*ast.Ident); ok && u != id && info.ObjectOf(u) == obj {
+							uses++
+							a, d := classify(u)
+							if a {
+								unq++
+							} else if d {
+								diag++
+							}
+						}
+						return true
+					})
+					if uses > 0 && unq+diag == uses {
+						argOfUnquote, inDiagnostic = unq > 0, unq == 0
 					}
 				}
 			}
